@@ -52,6 +52,27 @@ Theorem C14_cost_exact : forall (C : Type) (default : fcost C) (ctx0 : C)
   = Done (Z.min (RefCost ts) MaxInt) ((max >=? 0) && (RefCost ts >? max)).
 Proof. exact cost_exact. Qed.
 
+(** ** the same for "every validated document", with the hypotheses stated on the document itself:
+    [locally_ok]: every field is defined (or is [__typename]), its arguments coerce, every spread
+    fragment is defined, cost functions return; [validated rank]: the same inside every fragment
+    definition, and fragment spreads do not form cycles (some ranking decreases along every spread).
+    Then the cost tree exists, is unique, and (when its costs are non-negative machine integers) the
+    reported cost and verdict are those of its reference cost. *)
+Theorem C14_cost_exact_validated : forall (C : Type) (default : fcost C) (ctx0 : C)
+    (ops : list (option bytes * node C)) (frs : list (bytes * node C)) opname max fuel op rank,
+  NoDup (map fst frs) ->
+  get_operation ops opname = Some op ->
+  validated C frs rank -> locally_ok C frs op ->
+  (length frs < fuel)%nat ->
+  max <= MaxInt ->
+  exists ts,
+    Expand default frs [] ctx0 op ts /\
+    (forall ts', Expand default frs [] ctx0 op ts' -> ts' = ts) /\
+    (forallb costs_ok ts = true ->
+     validate_cost C true fuel default ctx0 ops frs opname false max
+     = Done (Z.min (RefCost ts) MaxInt) ((max >=? 0) && (RefCost ts >? max))).
+Proof. exact cost_exact_validated. Qed.
+
 (** ** cost_accept_iff: accepted <-> no limit or RefCost <= limit *)
 Theorem C14_cost_accept_iff : forall (C : Type) (default : fcost C) (ctx0 : C)
     (ops : list (option bytes * node C)) (frs : list (bytes * node C)) opname max fuel op ts,
@@ -138,6 +159,7 @@ Print Assumptions C14_checked_add_spec.
 Print Assumptions C14_select_op_spec.
 Print Assumptions C14_RefCost_horner.
 Print Assumptions C14_cost_exact.
+Print Assumptions C14_cost_exact_validated.
 Print Assumptions C14_cost_accept_iff.
 Print Assumptions C14_cost_overflow_rejected.
 Print Assumptions C14_cost_never_under.
